@@ -21,6 +21,7 @@ func (x *Exec) step(s *State, in ssa.Instruction, prev *ssa.BasicBlock) bool {
 		if isStruct(et) {
 			r := x.allocNew(s, in.Comment)
 			x.storeStruct(s, r, et, x.zeroTerm(et))
+			x.zeroGhost(s, r, et)
 			s.env[in] = TermVal{r}
 		} else {
 			if at, ok := et.Underlying().(*types.Array); ok {
@@ -187,6 +188,40 @@ func (x *Exec) step(s *State, in ssa.Instruction, prev *ssa.BasicBlock) bool {
 		x.unsupported("instruction %T", in)
 	}
 	return true
+}
+
+// zeroGhost: the ghost fields of a freshly allocated (zero-valued) object start at their zero value.
+func (x *Exec) zeroGhost(s *State, r *smt.Term, st types.Type) {
+	for _, gf := range x.E.GhostF {
+		if gf.Owner != nil && types.Identical(gf.Owner, st) {
+			cur := x.Heap(s, gf.Heap)
+			s.heap[gf.Heap] = smt.Store(cur, r, zeroOfSort(gf.Sort))
+		}
+	}
+	u := st.Underlying().(*types.Struct)
+	for i := 0; i < u.NumFields(); i++ {
+		if ft := u.Field(i).Type(); isStruct(ft) {
+			x.zeroGhost(s, x.E.subRef(st, i, r), ft)
+		}
+	}
+}
+
+func zeroOfSort(srt *smt.Sort) *smt.Term {
+	switch {
+	case srt == smt.Int:
+		return smt.IntC(0)
+	case srt == smt.Bool:
+		return smt.False
+	case srt == smt.Ref:
+		return RefNil
+	case srt == smt.Iface:
+		return IfaceNil
+	case srt.Kind == smt.KSeq:
+		return smt.SeqEmpty(srt.Args[0])
+	case srt.Kind == smt.KArr:
+		return smt.ConstArr(srt, zeroOfSort(srt.Args[1]))
+	}
+	return smt.Fresh("zero", srt)
 }
 
 func (x *Exec) execStore(s *State, addr, val ssa.Value) {
